@@ -2,10 +2,11 @@ PROPS["C14"] = dict(
     pkg="p_ring", hooks=["container"], level="exploration", design="DESIGN.md §4 C14",
     technique="model-based PBT (rapid) against a slice model + bounded-exhaustive op-list enumeration",
     rule="case = (capacity, op list over Write/Read/ReadN/Skip/At/Clear); exhaustive over the full op alphabet "
-         "(ReadN len 0..cap+2, Skip -1..cap+2 and MaxInt, At -1..cap+1 and MaxInt) for capacities 0..3(4) to the depth in exhaustive_parts, rapid lists "
-         "for capacities 0..300 with arguments that also include +-2^31, +-2^40, MaxInt, MinInt, and (one case in eleven) capacities 301..5000 incl. 2^k-1, 2^k, 2^k+1 whose short lists mix single calls with bulk fills "
+         "(ReadN len 0..cap+2, Skip -1..cap+2 and MaxInt, At -1..cap+1 and MaxInt) for capacities 0..3(4) to the depth in exhaustive_parts, and once more to depth 3 (thorough 4) over that alphabet widened by the out-of-range arguments Skip(2^k+1), At(2^k) for k=16,31,32 whose low bits equal the smallest in-range argument, rapid lists "
+         "for capacities 0..300 with arguments that also include +-2^31, +-2^40, MaxInt, MinInt and (one Skip/At argument in six) an in-range value moved out of range by a multiple (1,2,3,-1,-2,255,2^20) of 2^16, 2^31 or 2^32 (ReadN destination lengths: by 1..3 times 2^16 only, they must be allocated), and (one case in eleven) capacities 301..5000 incl. 2^k-1, 2^k, 2^k+1 whose short lists mix single calls with bulk fills "
          "(N Write calls, N around the capacity - to the brim and beyond - or anywhere below; the O(cap) cleared-slot sweep then follows every non-Write op and every 64th Write); a shapes unit runs the same contract with other element types: strings and structs whose text looks like a format directive, and a "
-         "zero-size element type with capacities up to MaxInt-1 (which only such a type can have); non-trivial = some op spanned the wrap point of the backing array, or Write hit Len==Cap, "
+         "zero-size element type with capacities up to MaxInt-1 (which only such a type can have; there the backing array exceeds 2^32 slots, so the Skip/At/ReadN arguments congruent to small values modulo 2^16, 2^31, 2^32 - systematic lists and one random argument in six, ReadN destinations of any length since they cost nothing - lie inside the array although out of range); "
+         "an independent unit lets 2..8 goroutines work at the same time, each through families of its own private buffers (never shared; capacities 0..5000, a family = the same op list on capacities c..c+span-1, most lists first fill to one short of / exactly / beyond the brim; element shapes mixed), every buffer against the model - independent buffers must not interact through package state (a fatal runtime error is attributed by the driver as process-crash); non-trivial = some op spanned the wrap point of the backing array, or Write hit Len==Cap, "
          "or Read hit empty; distinct = FNV hash of (capacity, op list)",
     assumptions=["slice model of a bounded FIFO written from the RingBuffer interface comments and the C14 statement",
                  "cleared-slot invariant read through the overlay accessor VerifRingSlots (skipped if the hook no longer compiles)"],
@@ -13,6 +14,7 @@ PROPS["C14"] = dict(
         dict(name="exhaustive", run="^TestC14Exhaustive$", shards=(4, 16), timeout=(200, 1500)),
         dict(name="shapes", run="^TestC14Shapes$", checks=(3000, 30000), shards=(1, 8), timeout=(200, 1500)),
         dict(name="rapid", run="^TestC14Rapid$", checks=(20000, 60000), shards=(2, 16), timeout=(200, 1500)),
+        dict(name="independent", run="^TestC14Independent$", checks=(300, 3000), shards=(1, 4), timeout=(200, 1500)),
     ],
 )
 
